@@ -191,8 +191,14 @@ def run(chk):
         if dfp is None:
             r3.require(False, f"{bc.key}.df|present", bc.module.rel, f"{base}.df accessor vanished")
         else:
+            def _leaves(e):
+                # the values a return expression can take: both arms of a conditional expression, operands of `x or y`
+                if isinstance(e, ast.IfExp):
+                    return _leaves(e.body) + _leaves(e.orelse)
+                return [e]
             rets = [n for n in walk_no_nested(dfp.node) if isinstance(n, ast.Return) and n.value is not None and unparse(n.value) != "None"]
-            ok = bool(rets) and all(unparse(r.value) == "self._df.copy()" for r in rets) and any("property" in d for d in dfp.decorators)
+            vals = [x for r in rets for x in _leaves(r.value) if unparse(x) != "None"]
+            ok = bool(vals) and all(unparse(x) in ("self._df.copy()", "self._df.copy(deep=True)") for x in vals) and any("property" in d for d in dfp.decorators)
             r3.require(ok, f"{dfp.key}|returns-copy", dfp.where(), f"{base}.df must be a property returning self._df.copy(); found {[unparse(r.value) for r in rets]}")
         for sub in chk.res.subclasses(bc):
             for nm in ("df",):
